@@ -324,6 +324,33 @@ func (g *c09Gen) section() verifh.Section {
 			ops = append(ops, fmt.Sprintf("req m=%s p=%s n=%d", rm, g.dirty(inst, 10), rep))
 		}
 	}
+	// class of seeded change C09-9: an existing (method, cleaned pattern) — literal, with variables, or "/" — is
+	// registered AGAIN with a DIFFERENT handler (spelled differently: trailing slash, //, ./); the call is rejected and
+	// the requests that follow must still reach the handler of the ACCEPTED registration
+	if r.Chance(1, 3) {
+		for k, n := 0, r.Range(1, 3); k < n; k++ {
+			id++
+			q := regs[r.Intn(len(regs))]
+			if r.Chance(1, 6) {
+				q = reg{q.m, nil} // the root
+				ops = append(ops, fmt.Sprintf("route m=%s p=/ h=%d", q.m, id))
+				id++
+			}
+			var inst []string
+			for _, t := range q.toks {
+				if strings.HasPrefix(t, ":") {
+					inst = append(inst, tok())
+				} else {
+					inst = append(inst, t)
+				}
+			}
+			ops = append(ops, fmt.Sprintf("route m=%s p=%s h=%d", q.m, g.dirty(q.toks, 14), id))
+			ops = append(ops, fmt.Sprintf("req m=%s p=%s n=%d", q.m, g.dirty(inst, 10), rep))
+			if r.Bool() {
+				ops = append(ops, fmt.Sprintf("req m=%s p=%s n=%d", c09Methods[r.Intn(len(c09Methods))], g.dirty(inst, 10), rep))
+			}
+		}
+	}
 	return verifh.Section{Cfg: fmt.Sprintf("kind=router mode=%d", mode), Ops: ops}
 }
 
